@@ -5,6 +5,7 @@ package main
 // evidence as a trusted specification.
 
 import (
+	"os"
 	"fmt"
 	"go/token"
 	"go/types"
@@ -337,6 +338,90 @@ func init() {
 	}
 	builtinSpecs["(*time.Ticker).Stop"] = func(e *Engine, st *State, fn *ssa.Function, args []Value, pos token.Pos) []*State {
 		return ret(st, nil)
+	}
+	// Get: some value of the dynamic type that the pool's New function returns
+	// (either New() or an earlier Put); its contents are arbitrary.  That the
+	// pool only holds values of that type is an assumption about the Put sites.
+	builtinSpecs["(*sync.Pool).Get"] = func(e *Engine, st *State, fn *ssa.Function, args []Value, pos token.Pos) []*State {
+		pp, ok := args[0].(PtrV)
+		if !ok {
+			panic(unsupported("sync.Pool.Get on unknown pool"))
+		}
+		var dyn types.Type
+		pt := pp.Elem.Underlying().(*types.Struct)
+		for i := 0; i < pt.NumFields(); i++ {
+			if pt.Field(i).Name() != "New" {
+				continue
+			}
+			fv := e.load(st, pp.field(i, pt.Field(i).Type()), pt.Field(i).Type())
+			if cv, ok := fv.(ClosureV); ok {
+				for _, b := range cv.Fn.Blocks {
+					for _, ins := range b.Instrs {
+						if r, ok := ins.(*ssa.Return); ok && len(r.Results) == 1 {
+							if mi, ok := r.Results[0].(*ssa.MakeInterface); ok {
+								dyn = mi.X.Type()
+							}
+						}
+					}
+				}
+			}
+		}
+		if dyn == nil && e.cur != nil {
+			// statically: the only function stored into a sync.Pool's New field in
+			// the function under verification
+			var cands []*ssa.Function
+			for _, b := range e.cur.fn.Blocks {
+				for _, ins := range b.Instrs {
+					sto, ok := ins.(*ssa.Store)
+					if !ok {
+						continue
+					}
+					fa, ok := sto.Addr.(*ssa.FieldAddr)
+					if !ok {
+						continue
+					}
+					stt, ok := fa.X.Type().(*types.Pointer).Elem().Underlying().(*types.Struct)
+					if !ok || stt.Field(fa.Field).Name() != "New" || !strings.HasSuffix(fa.X.Type().String(), "sync.Pool") {
+						continue
+					}
+					switch v := sto.Val.(type) {
+					case *ssa.Function:
+						cands = append(cands, v)
+					case *ssa.MakeClosure:
+						cands = append(cands, v.Fn.(*ssa.Function))
+					case *ssa.ChangeType:
+						if f, ok := v.X.(*ssa.Function); ok {
+							cands = append(cands, f)
+						}
+					}
+				}
+			}
+			if os.Getenv("GOVC_DEBUG") != "" {
+				fmt.Fprintln(os.Stderr, "pool.Get: candidates", len(cands), e.cur.fn)
+			}
+			if len(cands) == 1 {
+				// every value the function can return is boxed by a MakeInterface
+				// (naive form stores it into the result cell first)
+				var dts []types.Type
+				for _, b := range cands[0].Blocks {
+					for _, ins := range b.Instrs {
+						if mi, ok := ins.(*ssa.MakeInterface); ok {
+							dts = append(dts, mi.X.Type())
+						}
+					}
+				}
+				if len(dts) == 1 {
+					dyn = dts[0]
+				}
+			}
+		}
+		if dyn == nil {
+			panic(unsupported("sync.Pool.Get: the pool's New function is not known here"))
+		}
+		e.trustedUsed["sync.Pool.Get returns a value of the dynamic type of the pool's New result with arbitrary contents (pool discipline at the Put sites assumed)"] = true
+		st.havocAlloc()
+		v := e.freshValue(st, "pooled", dyn)
+		return ret(st, e.makeInterface(st, dyn, v))
 	}
 	builtinSpecs["(*sync.Pool).Put"] = func(e *Engine, st *State, fn *ssa.Function, args []Value, pos token.Pos) []*State {
 		iv := args[1].(IfaceV)
